@@ -10,7 +10,8 @@ tool's own checkpoint keys, filter.lua) and, per data path, which (db, key) reac
      SET / SCRIPT LOAD / opinfo in mixed letter case) [rump: see C16] - against the model Redis; every
      command the target executed and the final keyspace are judged by TLC with Filter.tla (FsTrace):
      a filtered key never produces a command, an unfiltered key always arrives, scripts iff not
-     filter.lua, internal commands never."""
+     filter.lua, internal commands never.  Beyond the model-checked pool: scenarios with random prefix lists and
+     keys over the alphabet {a, b, {, }, :} (and the checkpoint prefix), judged by the same operators."""
 import itertools
 import random
 import time
@@ -72,6 +73,55 @@ def tdb_scenarios(start):
                 yield {"id": cid, "cfg": cfg, "pre": [], "entries": ents}
 
 
+def _slot(key):
+    """only used to pick a slot some key of the scenario falls into (the judge is Filter.tla's own Slot)"""
+    i = key.find(b"{")
+    if i >= 0:
+        j = key.find(b"}", i + 1)
+        if j > i + 1:
+            key = key[i + 1:j]
+    crc = 0
+    for b in key:
+        crc ^= b << 8
+        for _ in range(8):
+            crc = ((crc << 1) ^ 0x1021) & 0xFFFF if crc & 0x8000 else (crc << 1) & 0xFFFF
+    return crc % 16384
+
+
+def random_scenarios(rnd, start, count):
+    """prefix lists and keys drawn from a small alphabet (incl. braces and the checkpoint prefix): the recorded keys are judged
+    by Filter.tla byte for byte, so nothing limits them to the model-checked pool"""
+    alpha = "ab{}:"
+    def word(lo, hi):
+        return "".join(rnd.choice(alpha) for _ in range(rnd.randint(lo, hi)))
+    cid = start
+    for _ in range(count):
+        mode = rnd.choice(("sync", "restore", "incr"))
+        cfg = {"mode": mode, "parallel": rnd.choice([1, 2, 4]), "tdb": -1, "key_exists": "none", "target": {"version": "5.0.7"}, "sched": "free",
+               "filter_lua": rnd.random() < 0.15, "fslot": []}
+        plist = list({word(1, 3) for _ in range(rnd.randint(1, 4))})
+        if rnd.random() < 0.15:
+            plist.append("redis-shake")
+        kind = rnd.choice(("white", "black", "black", "none"))
+        if kind == "white":
+            cfg["fkey_white"] = plist
+        elif kind == "black":
+            cfg["fkey_black"] = plist
+        cfg.update(rnd.choice(DB_CFGS)[0])
+        keys = {word(0, 6) for _ in range(24)} | {p + word(0, 2) for p in plist} | {p[:-1] for p in plist} | {"redis-shake-checkpoint" + word(0, 2)}
+        if not cfg["filter_lua"] and rnd.random() < 0.3:
+            k0 = rnd.choice(sorted(keys))
+            cfg["fslot"] = [str(_slot(k0.encode()))]
+        ents, eid = [], 0
+        for db in (0, 1, 2):
+            for k in sorted(keys):
+                eid += 1
+                ents.append({"id": eid, "db": db, "key": k, "kind": "string", "type": -1})
+        ents.append({"id": eid + 1, "db": 0, "key": "", "kind": "lua"})
+        cid += 1
+        yield {"id": cid, "cfg": cfg, "pre": [], "entries": ents}
+
+
 def run(tier, seed, replay=None):
     t0 = time.time()
     verdict = vlib.Verdict(PID)
@@ -90,6 +140,7 @@ def run(tier, seed, replay=None):
             rest = [c for c in cases if c not in must]
             cases = must + rnd.sample(rest, 90)
         cases += list(tdb_scenarios(100000))
+        cases += list(random_scenarios(random.Random(seed * 31 + 5), 200000, 400 if thorough else 25))
         def extra(ev, c, ent):
             cfg = c["cfg"] if c else {}
             return {"lua_entry": ev["e"] == "done", "key_whitelist": bool(cfg.get("fkey_white")), "filter_lua": cfg.get("filter_lua"),
